@@ -46,6 +46,7 @@ func main() {
 	evDir := flag.String("evidence-dir", "", "developer aid: write evidence and replay files below this directory instead of <verif>/evidence")
 	debugFn := flag.String("debug-exprs", "", "developer aid: print the canonical expressions of all calls/returns in the named function (e.g. cmd:CopyCommand.copyOneFile)")
 	flag.BoolVar(&noNormalise, "no-normalise", false, "developer aid: do not expand non-inventory helpers before analysis")
+	flag.BoolVar(&noReoutline, "no-reoutline", false, "developer aid: do not try to put inlined-and-deleted anchor functions back")
 	flag.BoolVar(&dumpNormalised, "dump-normalised", false, "developer aid: print the files rewritten by the helper-expansion pass")
 	genInv := flag.Bool("gen-inventory", false, "developer aid: print the function inventory of the tree at -repo")
 	dbgScope := flag.String("debug-scope", "", "developer aid: print the cmd functions reachable from a command type")
